@@ -125,6 +125,25 @@ def _superposed(G, cyc, rng, starts=(), ends=(), n=2):
     return None
 
 
+def _superposed_new(G, cyc, rng, starts, ends):
+    """like _superposed, but one of the superposed routes exists only because of the additional starts/ends (so that they matter)"""
+    key = lambda m: sorted(m.items())
+    R = sorted((r for r in _routes(G, cyc, _caps(G, 2) if cyc else None, starts, ends) if r), key=key)
+    R0 = [r for r in _routes(G, cyc, _caps(G, 2) if cyc else None) if r]
+    Rn = [r for r in R if r not in R0]
+    if not Rn:
+        return None
+    for attempt in range(40):
+        f = {e: 0 for e in G.edges()}
+        picks = [(Rn[next(rng) % len(Rn)], 2 + next(rng) % 2)] + [(R[next(rng) % len(R)], 1 + next(rng) % 3) for _ in range(next(rng) % 3)]
+        for r, w in picks:
+            for e, c in r.items():
+                f[e] += w * c
+        if all(v > 0 for v in f.values()) and max(f.values()) <= 6:
+            return f
+    return None
+
+
 def _noisy(G, f, rng):
     """non-negative, not all zero edge values: a superposition with one or two entries changed"""
     g = dict(f) if f else {e: 1 + next(rng) % 3 for e in G.edges()}
@@ -188,8 +207,10 @@ def _ignore_variants(G, f, rng):
 
 
 def _startend_variants(G, rng):
-    inner_s = sorted(v for v in G if G.in_degree(v) > 0)
-    inner_t = sorted(v for v in G if G.out_degree(v) > 0)
+    # prefer truly inner nodes (a start at a sink or an end at a source only adds the empty route)
+    both = sorted(v for v in G if G.in_degree(v) > 0 and G.out_degree(v) > 0)
+    inner_s = both or sorted(v for v in G if G.in_degree(v) > 0)
+    inner_t = both or sorted(v for v in G if G.out_degree(v) > 0)
     out = []
     if inner_s:
         out.append(([inner_s[next(rng) % len(inner_s)]], []))
@@ -225,19 +246,25 @@ def cases(tier):
                 if f is None:
                     continue
                 g = _noisy(G, f, rng)
+                if cyc:
+                    g = {e: min(v, 4) for e, v in g.items()}       # keeps the walk oracle's caps (<= 4) generous for every value
                 cvs = _constraint_variants(G, cyc, rng)
                 ivs = _ignore_variants(G, f, rng)
                 svs = _startend_variants(G, rng)
-                nvar = 2 if quick else 4
+                nvar = 3 if quick else 4
                 for mi, model in enumerate(models):
                     vals = f if model in FD else (None if model in COV else g)
                     wts = ("int",) if model in FD or model in COV else (("int", "float")[(gi + mi) % 2],)
                     if not quick and model in ERR:
                         wts = ("int", "float")
+                    if model in ERR and cyc and (quick or len(scc_edges(G)) > 1):
+                        wts = ("int",)          # the real-weighted walk oracle (z3) costs seconds per instance: thorough tier, one cycle edge only
                     for wt in wts:
                         ks = (None,)
                         if model in HAS_K:
                             ks = (1 + (gi + mi) % 2,) if quick else (1, 2, 3)
+                            if model in ERR and cyc and not quick:
+                                ks = (1, 2)         # k <= 2: exhaustive integer oracle
                             if model in ("kFlowDecomp", "kFlowDecompCycles", "kPathCover", "kPathCoverCycles"):
                                 ks = (1 + (gi + mi) % 3,) if quick else (1, 2, 3)
                         for k in ks:
@@ -250,6 +277,8 @@ def cases(tier):
                             # ignoring / scale 0  (docs: every model except MinFlowDecomp offers elements_to_ignore; MinFlowDecomp has the parameter too)
                             for j in range(min(nvar, len(ivs))):
                                 ign, pert = ivs[(gi + mi + j * 2) % len(ivs)]
+                                if len(ign) >= G.number_of_edges():
+                                    continue            # domain: at least one element stays non-ignored
                                 if model in COV and pert:
                                     pert = {}
                                 via = "scale0" if (model in HAS_SCALE and (gi + j) % 2) else "ignore"
@@ -260,10 +289,15 @@ def cases(tier):
                                 for j in range(min(nvar if not quick else 1, len(svs))):
                                     st, en = svs[(gi + mi + j) % len(svs)]
                                     vv = vals
-                                    if model in FD:
-                                        vv = _superposed(G, cyc, _lcg(gi * 13 + j), st, en)
+                                    if model in FD or model in ERR:
+                                        # values that are a superposition over the ENLARGED route set, so that the new routes matter
+                                        vv = _superposed_new(G, cyc, _lcg(gi * 13 + j), st, en) or _superposed(G, cyc, _lcg(gi * 13 + j), st, en)
                                         if vv is None:
-                                            continue
+                                            if model in FD:
+                                                continue
+                                            vv = vals
+                                        elif cyc and model in ERR:
+                                            vv = {e: min(v, 4) for e, v in vv.items()}
                                     yield _mk(model, G, vv, wt, k, "startend", starts=list(st), ends=list(en))
     # curated: documentation examples (docs/subpath-constraints.md, docs/ignoring-edges.md, docs/additional-start-end-nodes.md)
     doc = [["s", "a", 6], ["s", "b", 7], ["a", "b", 2], ["a", "c", 4], ["b", "c", 9], ["c", "d", 6], ["c", "t", 7], ["d", "t", 6]]
@@ -353,6 +387,179 @@ def fd_min_pos(R, flow, ignore=(), constraints=(), coverage=1.0, lengths=None, k
     return None
 
 
+def _minimise_sel(s, obj, sel, wt):
+    """certified minimum of obj over the assertions of s.  Descent `obj < best` until unsat.  For real weights the value taken from a
+    model is first improved to the exact LP optimum of that model's route selection (pure linear real arithmetic), so every round
+    eliminates at least one of the finitely many selections - the plain descent of rc.oracles._minimise can converge forever
+    towards an optimum it never reaches.  Integer instances have integer-valued objectives here (scales 0/1), so they terminate too."""
+    import z3
+    best = None
+    for _ in range(400):
+        r = s.check()
+        if r == z3.unsat:
+            return ("opt", best) if best is not None else ("infeasible", None)
+        if r != z3.sat:
+            return ("unknown", None)
+        m = s.model()
+        v = O._val(m.eval(obj, model_completion=True))
+        if wt is not int:
+            o = z3.Optimize()
+            o.add(*s.assertions())
+            for row in sel:
+                for x in row:
+                    o.add(x if z3.is_true(m.eval(x, model_completion=True)) else z3.Not(x))
+            o.minimize(obj)
+            if o.check() == z3.sat:
+                v2 = O._val(o.model().eval(obj, model_completion=True))
+                if v2 < v:
+                    v = v2
+        best = v
+        s.add(obj < z3.RealVal(str(v)))
+    return ("unknown", None)
+
+
+def _z3_wmax(s, sel, R, k, ignore, wmax, vars_):
+    """library-cap classification only: multiplicity x value <= w_max on every counted (non-ignored) edge"""
+    import z3
+    if wmax is None:
+        return
+    b = z3.RealVal(str(Fraction(wmax)))
+    for i in range(k):
+        for x in vars_:
+            s.add(x[i] <= b)
+        for j, r in enumerate(R):
+            mm = max([c for e, c in r.items() if e not in ignore] + [0])
+            if mm > 1:
+                for x in vars_:
+                    s.add(z3.Implies(sel[i][j], x[i] * mm <= b))
+
+
+def lae_val(R, flow, k, wt, ignore=(), constraints=None, coverage=1.0, lengths=None, wmax=None):
+    """min over k routes (with repetition) from R and weights >= 0 of the sum over non-ignored edges of |flow - explained| (rc.oracles formulation)"""
+    import z3
+    s = z3.Solver()
+    sel, w = O._select(s, k, R, wt)
+    errs = []
+    for e, fe in flow.items():
+        if e in ignore:
+            continue
+        d = O._rv(fe) - O._through(sel, w, R, e, k)
+        errs.append(z3.If(d >= 0, d, -d))
+    O._constraints(s, sel, R, k, constraints, coverage, lengths)
+    _z3_wmax(s, sel, R, k, ignore, wmax, [w])
+    return _minimise_sel(s, z3.Sum(errs + [z3.RealVal(0)]), sel, wt)
+
+
+def lae_int_enum(R, flow, k, ignore=(), constraints=None, coverage=1.0, lengths=None, wmax=None):
+    """k <= 2, integer weights: plain enumeration of all route tuples and all weights 0..max flow (a larger weight only adds error on
+    every edge of its route).  Returns ("opt", value) or ("infeasible", None)."""
+    import numpy as np
+    E = [e for e in flow if e not in ignore]
+    f = np.array([int(flow[e]) for e in E], dtype=np.int64)
+    M = np.array([[r.get(e, 0) for e in E] for r in R], dtype=np.int64).reshape(len(R), len(E))
+    cons = [list(c) for c in (constraints or ())]
+    sat = np.array([[O.constraint_ok(r, c, coverage, lengths) for c in cons] for r in R], dtype=bool).reshape(len(R), len(cons))
+    W = int(f.max()) if len(E) else 0
+    if not len(R):
+        return ("infeasible", None)
+    mm = M.max(axis=1) if len(E) else np.zeros(len(R), dtype=np.int64)
+    lim = (lambda w: np.ones(len(R), dtype=bool)) if wmax is None else (lambda w: (w * np.maximum(mm, 1)) <= int(wmax))   # wmax: library-cap classification only
+    best = None
+    if k == 1:
+        okr = sat.all(axis=1) if cons else np.ones(len(R), dtype=bool)
+        if not okr.any():
+            return ("infeasible", None)
+        for w in range(W + 1):
+            err = np.abs(f[None, :] - w * M).sum(axis=1)
+            ok = okr & lim(w)
+            if not ok.any():
+                continue
+            v = int(err[ok].min())
+            best = v if best is None or v < best else best
+        return ("opt", Fraction(best)) if best is not None else ("infeasible", None)
+    okp = np.ones((len(R), len(R)), dtype=bool)
+    for j in range(len(cons)):
+        okp &= (sat[:, j][:, None] | sat[:, j][None, :])
+    if not okp.any():
+        return ("infeasible", None)
+    big = np.iinfo(np.int64).max // 4
+    for w1 in range(W + 1):
+        A = f[None, :] - w1 * M
+        for w2 in range(w1 + 1):
+            err = np.abs(A[:, None, :] - (w2 * M)[None, :, :]).sum(axis=2)
+            ok = okp & lim(w1)[:, None] & lim(w2)[None, :]
+            if not ok.any():
+                continue
+            v = int(np.where(ok, err, big).min())
+            best = v if best is None or v < best else best
+    return ("opt", Fraction(best)) if best is not None else ("infeasible", None)
+
+
+def mpe_int_enum(R, flow, k, ignore=(), constraints=None, coverage=1.0, lengths=None, wmax=None):
+    """k <= 2, integer weights and slacks: plain enumeration of all route tuples, weights 0..max flow (a larger weight only increases
+    the deviation on every edge of its route) and slacks.  Returns ("opt", value) or ("infeasible", None)."""
+    import numpy as np
+    E = [e for e in flow if e not in ignore]
+    f = np.array([int(flow[e]) for e in E], dtype=np.int64)
+    M = np.array([[r.get(e, 0) for e in E] for r in R], dtype=np.int64).reshape(len(R), len(E))
+    cons = [list(c) for c in (constraints or ())]
+    sat = np.array([[O.constraint_ok(r, c, coverage, lengths) for c in cons] for r in R], dtype=bool).reshape(len(R), len(cons))
+    W = int(f.max()) if len(E) else 0
+    big = 10 ** 9
+    best = big
+    if not len(R):
+        return ("infeasible", None)
+    mm = np.maximum(M.max(axis=1), 1) if len(E) else np.ones(len(R), dtype=np.int64)
+    cap = None if wmax is None else (int(wmax) // mm)          # wmax: library-cap classification only (weight and slack x multiplicity <= w_max)
+    if k == 1:
+        okr = sat.all(axis=1) if cons else np.ones(len(R), dtype=bool)
+        for w in range(W + 1):
+            d = np.abs(f[None, :] - w * M)
+            need = np.where(M > 0, -(-d // np.maximum(M, 1)), np.where(d > 0, big, 0)).max(axis=1) if len(E) else np.zeros(len(R), dtype=np.int64)
+            ok = okr if cap is None else (okr & (w <= cap) & (need <= cap))
+            v = int(np.where(ok, need, big).min())
+            best = min(best, v)
+        return ("opt", Fraction(best)) if best < big else ("infeasible", None)
+    okp = np.ones((len(R), len(R)), dtype=bool)
+    for j in range(len(cons)):
+        okp &= (sat[:, j][:, None] | sat[:, j][None, :])
+    M1 = M[:, None, :]
+    M2 = M[None, :, :]
+    for w1 in range(W + 1):
+        for w2 in range(w1 + 1):
+            d = np.abs(f[None, None, :] - w1 * M1 - w2 * M2)
+            dmax = int(d.max()) if d.size else 0
+            for r1 in range(min(dmax, best) + 1):
+                rest = np.maximum(d - r1 * M1, 0)
+                need2 = np.where(M2 > 0, -(-rest // np.maximum(M2, 1)), np.where(rest > 0, big, 0)).max(axis=2) if len(E) else np.zeros((len(R), len(R)), dtype=np.int64)
+                ok = okp if cap is None else (okp & (w1 <= cap)[:, None] & (r1 <= cap)[:, None] & (w2 <= cap)[None, :] & (need2 <= cap[None, :]))
+                tot = np.where(ok, need2 + r1, big)
+                v = int(tot.min())
+                best = min(best, v)
+    return ("opt", Fraction(best)) if best < big else ("infeasible", None)
+
+
+def mpe_val(R, flow, k, wt, ignore=(), constraints=None, coverage=1.0, lengths=None, wmax=None):
+    """min sum of route slacks >= 0 such that on every non-ignored edge |flow - explained| <= sum of the slacks of the routes through it
+    (counted with multiplicity, as the weights are)"""
+    import z3
+    s = z3.Solver()
+    sel, w = O._select(s, k, R, wt)
+    T = z3.Int if wt is int else z3.Real
+    sl = [T("sl%d" % i) for i in range(k)]
+    for i in range(k):
+        s.add(sl[i] >= 0)
+    for e, fe in flow.items():
+        if e in ignore:
+            continue
+        d = O._rv(fe) - O._through(sel, w, R, e, k)
+        st = O._through(sel, sl, R, e, k)
+        s.add(d <= st, -d <= st)
+    O._constraints(s, sel, R, k, constraints, coverage, lengths)
+    _z3_wmax(s, sel, R, k, ignore, wmax, [w, sl])
+    return _minimise_sel(s, z3.Sum([z3.ToReal(x) if wt is int else x for x in sl] + [z3.RealVal(0)]), sel, wt)
+
+
 def _cover_min(R, need, constraints, coverage, lengths, kmax=6):
     return O.min_cover([r for r in R], need, constraints, coverage, lengths, kmax=kmax)
 
@@ -416,10 +623,10 @@ def lib_run(case, feature=True):
         m = getattr(fp, model)(G, **kw)
         ok = m.solve()
         if not (ok and m.is_solved()):
-            return dict(solved=False)
+            return dict(solved=False, _m=m, _G=G, _kw=kw)
         sol = m.get_solution()
         routes = [list(r) for r in sol["walks" if cyc else "paths"]]
-        out = dict(solved=True, routes=routes, weights=list(sol.get("weights", [])), obj=m.get_objective_value())
+        out = dict(solved=True, routes=routes, weights=list(sol.get("weights", [])), obj=m.get_objective_value(), _m=m, _G=G, _kw=kw)
         if "slacks" in sol:
             out["slacks"] = list(sol["slacks"])
         return out
@@ -429,8 +636,10 @@ def lib_run(case, feature=True):
 
 # ------------------------------------------------------------------------------------------------ the spec side
 
-def spec(case, feature=True):
-    """oracle answer for the case: dict(kind='count'|'feas'|'value', value=..., complete=bool route list)"""
+def spec(case, feature=True, rfilter=None, wmax=None):
+    """oracle answer for the case: dict(kind='count'|'feas'|'value', value=..., complete=bool route list).
+    rfilter / wmax are used ONLY to name the class of a failure (see cap_explained): the same problem restricted to the routes and
+    multiplicity x value products that the library's own caps admit."""
     model = case["model"]
     cyc = cyclic(model)
     wt = int if case["wt"] == "int" else float
@@ -452,6 +661,8 @@ def spec(case, feature=True):
         R = _routes(G, True, caps, starts, ends)
     else:
         R = _routes(G, False, None, starts, ends)
+    if rfilter is not None:
+        R = [r_ for r_ in R if rfilter(r_)]
     k = case["k"]
     if model in FD:
         kpos = fd_min_pos(R, flow, ign, cons, cov, lengths)
@@ -463,18 +674,83 @@ def spec(case, feature=True):
     # error models
     nz = {e: (0 if v is None else v) for e, v in flow.items()}
     if "LeastAbs" in model:
-        feas = _cover_min(R, [], cons, cov, lengths, kmax=k)
-        val = O.lae_opt(R, nz, k, wt, ignore=ign, constraints=cons, coverage=cov, lengths=lengths) if feas is not None else None
+        if wt is int and k <= 2 and cyc:
+            st, val = lae_int_enum(R, nz, k, ign, cons, cov, lengths, wmax=wmax)
+        elif not R:
+            st, val = "infeasible", None
+        else:
+            st, val = lae_val(R, nz, k, wt, ign, cons, cov, lengths, wmax=wmax)
+    elif wt is int and k <= 2 and cyc:
+        st, val = mpe_int_enum(R, nz, k, ign, cons, cov, lengths, wmax=wmax)
+    elif not R:
+        st, val = "infeasible", None
     else:
-        need = [e for e, v in nz.items() if e not in ign and v > 0]
-        feas = _cover_min(R, need, cons, cov, lengths, kmax=k)
-        val = O.mpe_opt(R, nz, k, wt, ignore=ign, constraints=cons, coverage=cov, lengths=lengths) if feas is not None else None
-    return dict(kind="value", value=val, feasible=feas is not None, R=R, complete=not cyc, caps=(caps if cyc else None))
+        st, val = mpe_val(R, nz, k, wt, ign, cons, cov, lengths, wmax=wmax)
+    return dict(kind="value", value=val, feasible=(st != "infeasible"), R=R, complete=not cyc, caps=(caps if cyc else None))
 
 
 # ------------------------------------------------------------------------------------------------ check
 
+CAP_SUFFIX = " [explained by the library's own repetition cap]"
+
+
+def cap_explained(case, r, s):
+    """Classification only (no clause depends on it).  A cyclic-model clause has failed: read the library's OWN caps off the model it
+    constructed - the per-edge repetition bound (floor of edge_upper_bounds: the edge's flow value in the decomposition models, the
+    largest reachable value in the error models), w_max bounding multiplicity x weight (and x slack), and the multiplicity bound
+    2^ceil(log2(w_max+1))-1 implied by the bit width of its integer x continuous product encoding - and recompute the oracle over
+    exactly the routes / products those caps admit.  True iff that restricted problem reproduces the library's outcome."""
+    import math
+    model = case["model"]
+    if not cyclic(model) or model in COV:
+        return False
+    try:
+        import flowpaths as fp
+        m = r.get("_m")
+        inner = m
+        nE = len(case["edges"])
+        if model.startswith("Min"):
+            inner = getattr(m, "fd_model", None) if r["solved"] else None
+            if inner is None:
+                kw = dict(r["_kw"])
+                kw.pop("optimization_options", None)
+                inner = fp.kFlowDecompCycles(r["_G"], k=max(1, nE), **kw)
+        ubs = inner.edge_upper_bounds
+        wmax = Fraction(inner.w_max).limit_denominator(10 ** 6)
+        ign = set(tuple(e) for e in case["ignore"])
+        bitcap = 2 ** int(math.ceil(math.log2(float(wmax) + 1))) - 1 if wmax > 0 else 0
+        f1 = lambda rt: all(c <= math.floor(float(ubs[e]) + 1e-9) for e, c in rt.items())
+        f3 = lambda rt: f1(rt) and all(c <= bitcap for e, c in rt.items() if e not in ign)
+        wt = int if case["wt"] == "int" else float
+
+        def same(t):
+            if t["kind"] == "feas":
+                return (not r["solved"]) and (t["value"] is None or t["value"] > case["k"])
+            if t["kind"] == "count":
+                if not r["solved"]:
+                    return t["value"] is None or t["value"] > nE
+                return t["value"] is not None and t["value"] == len(r["routes"])
+            if not r["solved"]:
+                return not t["feasible"]
+            return t["feasible"] and t["value"] is not None and close(r["obj"], t["value"], wt)
+
+        levels = [(f1, None), (f3, None)] if model in FD else [(f1, None), (f1, wmax), (f3, wmax)]
+        for flt, wm in levels:
+            if same(spec(case, True, rfilter=flt, wmax=wm)):
+                return True
+    except Exception:
+        return False
+    return False
+
+
+def _pub(d):
+    if isinstance(d, dict):
+        return {k: _pub(v) for k, v in d.items() if not str(k).startswith("_")}
+    return d
+
+
 def _fail(fp_, what, detail=None):
+    detail = _pub(detail)
     return dict(ok=False, nontrivial=True, fingerprint=fp_, what=what, detail=detail)
 
 
@@ -598,17 +874,8 @@ def check(case):
         if not s["complete"]:
             return dict(ok=True, nontrivial=True, detail=dict(note="valid answer outside the oracle's caps; " + c[1]))
         return dict(ok=None, nontrivial=False, what="oracle inconsistency: " + c[1] + " | " + inst)
-    # a failure: does the same model already disagree with its oracle without the feature?
-    suffix = ""
-    if not (model in FD and feat == "startend"):
-        try:
-            rb = lib_run(case, False)
-            if "error" not in rb:
-                cb = _compare(dict(case, cons=[], ignore=[], starts=[], ends=[], perturb=[]), rb, spec(case, False))
-                if cb is not None and cb[0] == "fail":
-                    suffix = " [the same model without the feature already disagrees with its oracle]"
-        except Exception:
-            pass
+    # a failure.  Name its class (only): is the library's outcome exactly what its own repetition caps admit?
+    suffix = CAP_SUFFIX if cap_explained(case, r, s) else ""
     return _fail("%s %s: %s%s" % (model, tag, c[1], suffix), "%s; library: %s | %s" % (c[2], {k_: r.get(k_) for k_ in ("solved", "routes", "weights", "obj", "slacks")}, inst),
                  dict(lib=r, oracle=str(s.get("value"))))
 
@@ -620,5 +887,5 @@ def run(tier="quick", seed=0, chunk=0, nchunks=1):
                           "{constraint lists (contiguous, gapped, overlapping, duplicated, unsatisfiable; coverage 1 / 0.5 / length 0.6), ignore sets of size 1-2 via elements_to_ignore or "
                           "error scale 0 (also with the ignored value changed), one additional start and/or end}; %d variants per feature, k in 1..3, int and float weights for the error models; "
                           "a sample under the second naming scheme; 3 curated instances; non-trivial = library solved (or the oracle proves there is nothing admissible)"
-                          % (", every 3rd" if tier == "quick" else "", 2 if tier == "quick" else 4),
+                          % (", every 3rd" if tier == "quick" else "", 3 if tier == "quick" else 4),
                      bounds="<=4 nodes, <=6 edges, values <=6 (superpositions of <=3 routes with weights <=3, +-2 noise for the error models); walk multiplicity caps 2..4 in the oracle")
